@@ -31,6 +31,8 @@ CACHE_DIR = os.path.join(ROOT, '.cache')
 # runs against a scratch copy of the repository (QV_REPO=...) never touch the registered evidence/replay files
 OUT_ROOT = ROOT if REPO == '/repo' else os.path.join(tempfile.gettempdir(), 'qv_alt_out')
 JOBS = int(os.environ.get('QV_JOBS', '16'))
+import threading
+_SLOTS = threading.Semaphore(JOBS)      # a group of weight w (memory-hungry queries) occupies w of the JOBS slots
 
 STD_INCLUDES = ['-I' + os.path.join(ROOT, 'include'), '-I' + os.path.join(ROOT, 'harness'),
                 '-I' + os.path.join(ROOT, 'contracts'), '-I' + os.path.join(ROOT, 'stubs')]
@@ -114,9 +116,9 @@ def expand(g):
     out = []
     for i in inst:
         h = dict(g)
-        h['name'] = g['name'] + '@' + ','.join('%s=%s' % kv for kv in sorted(i.items()) if kv[0] not in ('tier', 'timeout', 'solver', 'unwind', 'unwindset') and not kv[0].startswith('_'))
-        h['defines'] = list(g['defines']) + ['-D%s=%s' % (kv[0].lstrip('_'), kv[1]) for kv in i.items() if kv[0] not in ('tier', 'timeout', 'solver', 'unwind', 'unwindset')]
-        for k in ('tier', 'timeout', 'solver', 'unwind', 'unwindset'):
+        h['name'] = g['name'] + '@' + ','.join('%s=%s' % kv for kv in sorted(i.items()) if kv[0] not in ('tier', 'timeout', 'solver', 'unwind', 'unwindset', 'weight') and not kv[0].startswith('_'))
+        h['defines'] = list(g['defines']) + ['-D%s=%s' % (kv[0].lstrip('_'), kv[1]) for kv in i.items() if kv[0] not in ('tier', 'timeout', 'solver', 'unwind', 'unwindset', 'weight')]
+        for k in ('tier', 'timeout', 'solver', 'unwind', 'unwindset', 'weight'):
             if k in i:
                 h[k] = i[k]
         out.append(h)
@@ -318,6 +320,17 @@ def classify(g, results):
 
 def run_group(g, repo=REPO, use_cache=True):
     """returns dict(name, status in {ok, failed, undecided}, obligations[], seconds, ...)"""
+    w = max(1, min(JOBS, int(g.get('weight', 1))))
+    for _ in range(w):
+        _SLOTS.acquire()
+    try:
+        return _run_group(g, repo, use_cache)
+    finally:
+        for _ in range(w):
+            _SLOTS.release()
+
+
+def _run_group(g, repo=REPO, use_cache=True):
     t0 = time.time()
     scratch = tempfile.mkdtemp(prefix='qv_')
     res = {'name': g['name'], 'group': g, 'status': 'undecided', 'obligations': [], 'reason': '', 'cached': False}
